@@ -675,7 +675,93 @@ fn gen_c11_case(rng: &mut Rng, tier: &str, idx: u64) -> T {
     T::l(vec![T::list_n(&backends), T::l(commits), T::l(queries)])
 }
 
+/// directed family: reorgs two or three blocks deep.  Late blocks create / remove / overwrite keys that
+/// the earlier blocks did not touch, the late blocks and at least one block below them are rolled back,
+/// and the replacement blocks write the same keys with other contents at EARLIER heights; constant
+/// policy with a window wider than the reorg, so the history stays gap-free and every rollback succeeds
+fn gen_c12_reorg(rng: &mut Rng, tier: &str) -> T {
+    let thorough = tier == "thorough";
+    let start = *rng.pick(&[0u64, 1, 1, 2, 7]);
+    let policy = *rng.pick(&[1u64, 1, 1, 6, 7, 9]);
+    let mut pool: Vec<Vec<u8>> = vec![];
+    while pool.len() < 4 {
+        let k = vec![*rng.pick(&ALPHA), *rng.pick(&[0x00u8, 0x01])];
+        if !pool.contains(&k) {
+            pool.push(k);
+        }
+    }
+    let mut v: u8 = 0;
+    // one block over column 0: (key, Some(insert) | None(remove))
+    let block = |mut es: Vec<(Vec<u8>, Option<u8>)>| -> T {
+        es.sort();
+        es.dedup_by(|a, b| a.0 == b.0);
+        let entries: Vec<T> = es
+            .iter()
+            .map(|(k, o)| {
+                let op = match o {
+                    Some(x) => T::l(vec![T::i(1), T::bytes(&[*x])]),
+                    None => T::l(vec![T::i(0)]),
+                };
+                T::l(vec![key_t(k), op])
+            })
+            .collect();
+        T::l(vec![T::i(0), T::l(vec![T::l(vec![T::n(0u64), T::l(entries)])])])
+    };
+    let mut ops = vec![];
+    let rounds = rng.range(1, if thorough { 3 } else { 2 });
+    for _ in 0..rounds {
+        // base blocks: only the first two keys
+        for _ in 0..rng.range(1, 2) {
+            let mut es = vec![];
+            for k in &pool[..2] {
+                if rng.chance(2, 3) {
+                    v = v.wrapping_add(1);
+                    es.push((k.clone(), if rng.chance(1, 5) { None } else { Some(v) }));
+                }
+            }
+            ops.push(block(es));
+        }
+        // late blocks: the first creates (or removes) the third key, the next ones the fourth
+        let late = rng.range(1, 2);
+        for i in 0..late {
+            let mut es = vec![];
+            v = v.wrapping_add(1);
+            let fresh = &pool[2 + (i as usize).min(1)];
+            es.push((fresh.clone(), if rng.chance(1, 6) { None } else { Some(v) }));
+            for k in &pool[..3] {
+                if rng.chance(1, 3) {
+                    v = v.wrapping_add(1);
+                    es.push((k.clone(), if rng.chance(1, 3) { None } else { Some(v) }));
+                }
+            }
+            ops.push(block(es));
+        }
+        // roll back the late blocks and one or two blocks below them (never more than was committed)
+        let depth = late + rng.range(1, 2);
+        for _ in 0..depth {
+            ops.push(T::l(vec![T::i(1)]));
+        }
+        // replacement blocks: the keys of the late blocks now appear in the earliest replaced position
+        let repl = depth.min(3) + rng.below(2);
+        for i in 0..repl {
+            let mut es = vec![];
+            for (j, k) in pool.iter().enumerate() {
+                let p = if i == 0 && j >= 2 { 4 } else { 2 };
+                if rng.chance(p, 5) {
+                    v = v.wrapping_add(1);
+                    es.push((k.clone(), if rng.chance(1, 5) { None } else { Some(v) }));
+                }
+            }
+            ops.push(block(es));
+        }
+    }
+    T::l(vec![T::n(start), T::n(policy), T::l(ops)])
+}
+
 fn gen_c12_case(rng: &mut Rng, tier: &str, idx: u64) -> T {
+    if idx % 3 == 1 {
+        return gen_c12_reorg(rng, tier);
+    }
     let thorough = tier == "thorough";
     let start = *rng.pick(&[0u64, 0, 1, 1, 2, 7]);
     // keys: mostly one length per column (what the real tables have); sometimes mixed lengths
@@ -702,7 +788,7 @@ fn gen_c12_case(rng: &mut Rng, tier: &str, idx: u64) -> T {
         })
         .collect();
     // policy regime: 0 constant, 1 growing ranges, 2 free (shrinking and NoRewind interludes)
-    let regime = idx % 3;
+    let regime = (idx / 3) % 3;
     let pick_policy = |rng: &mut Rng, cur: u64| -> u64 {
         match regime {
             0 => cur,
